@@ -40,7 +40,13 @@ def main(args):
                 continue
             dest = os.path.join(runner.scratch_base(), f"mut-{name}-{os.getpid()}")
             try:
-                apply_mutant(os.path.join(mdir, name + ".diff"), dest)
+                try:
+                    apply_mutant(os.path.join(mdir, name + ".diff"), dest)
+                except RuntimeError as e:
+                    print(f"mutant={name} property={prop} caught=False exit=? PATCH DOES NOT APPLY: {str(e)[:200]}")
+                    results[f"{name}/{prop}"] = {"caught": False, "error": "patch does not apply"}
+                    bad += 1
+                    continue
                 t0 = time.time()
                 env = dict(os.environ, WDSIM_SRC=os.path.join(dest, "src"), WDSIM_NO_EVIDENCE="1", WDSIM_REPLAY_DIR=os.path.join(dest, "replays"))
                 r = subprocess.run([sys.executable, os.path.join(runner.VERIF, "check"), prop, "--budget", budget], capture_output=True, text=True, env=env, timeout=1800)
